@@ -287,6 +287,14 @@ func (g *Gen) sortOf(t types.Type) string {
 	return ""
 }
 
+// fieldAcc: accessor name of a struct field; blank fields ("_") are made unique
+func fieldAcc(f *types.Var, i int) string {
+	if f.Name() == "_" {
+		return fmt.Sprintf("_%d", i)
+	}
+	return f.Name()
+}
+
 func (g *Gen) structSort(key string, st *types.Struct) string {
 	name := q("S." + key)
 	if g.declared[name] {
@@ -296,7 +304,7 @@ func (g *Gen) structSort(key string, st *types.Struct) string {
 	var fs []string
 	for i := 0; i < st.NumFields(); i++ {
 		f := st.Field(i)
-		fs = append(fs, fmt.Sprintf("(%s %s)", q("S."+key+"."+f.Name()), g.sortOf(f.Type())))
+		fs = append(fs, fmt.Sprintf("(%s %s)", q("S."+key+"."+fieldAcc(f, i)), g.sortOf(f.Type())))
 	}
 	g.emit(fmt.Sprintf("(declare-datatypes ((%s 0)) (((%s %s))))", name, q("mk.S."+key), strings.Join(fs, " ")))
 	return name
@@ -591,7 +599,7 @@ func (g *Gen) storeStruct(st *State, t types.Type, ref string, val string) {
 	g.sortOf(t)
 	for i := 0; i < s.NumFields(); i++ {
 		f := s.Field(i)
-		fv := sx(q("S."+key+"."+f.Name()), val)
+		fv := sx(q("S."+key+"."+fieldAcc(f, i)), val)
 		loc, sub := g.fieldLoc(t, i, ref)
 		if loc == nil {
 			if al := g.wholeArrayLoc(f.Type(), sub.T); al != nil {
